@@ -777,29 +777,30 @@ class MessageManager(ClientLike):
             data = cd.MDF_MESSAGE_TRAFFIC()
             now = time.perf_counter()
             sub_seqno = 1
-            nsent = 0
             i = -1
             for n, (mt, count) in enumerate(self.traffic_counter.items()):
-                data.seqno = self.traffic_seqno
-                data.sub_seqno = sub_seqno
-                data.start_timestamp = self.traffic_start
-                data.end_timestamp = now
-
                 i = n % cd.MESSAGE_TRAFFIC_SIZE
+                if i == 0:
+                    # start a new sub-message
+                    data = cd.MDF_MESSAGE_TRAFFIC()
+                    data.seqno = self.traffic_seqno
+                    data.sub_seqno = sub_seqno
+                    data.start_timestamp = self.traffic_start
+                    data.end_timestamp = now
+
                 data.msg_type[i] = mt
                 data.msg_count[i] = count
 
-                if (n % cd.MESSAGE_TRAFFIC_SIZE) == 0:
-                    nsent = n
+                # sub-message is full
+                if i == cd.MESSAGE_TRAFFIC_SIZE - 1:
                     self.send_message(data)
                     sub_seqno += 1
 
-            # Send any remaining
-            if i >= 0:
+            # Send any remaining, marking the unused entries
+            if i >= 0 and i != cd.MESSAGE_TRAFFIC_SIZE - 1:
                 i += 1
-                if nsent < len(self.traffic_counter):
-                    data.msg_type[i:] = [-1 for _ in range(cd.MESSAGE_TRAFFIC_SIZE - i)]
-                    self.send_message(data)
+                data.msg_type[i:] = [-1 for _ in range(cd.MESSAGE_TRAFFIC_SIZE - i)]
+                self.send_message(data)
 
         self.traffic_counter.clear()
         self.traffic_start = now
